@@ -18,6 +18,20 @@ CLAIMS = {
         "note": TRUSTED + "; exception-class hierarchy table for third-party classes (DESIGN Appendix B)",
         "technique": "CFG with exception edges: catch-all coverage, must-pass-through, value-set dataflow of status variables, plumbing tables",
     },
+    "C07": {
+        "text": "Who-must-call / dominance / plumbing analysis over all paths of the current source: each of the five "
+                "operation enumerators (OpenAPI and GraphQL get_all_operations, _measure_statistic, _operation_iter) "
+                "yields or counts an operation only on the selected edge of a _should_skip test; _should_skip evaluates "
+                "the schema's FilterSet on a context carrying this operation; FilterSet.match has the any-include / "
+                "no-exclude shape, include/exclude feed the right sets, clone() copies both sets (no aliasing); links are "
+                "added as transitions only for selected targets and the state machine only uses the filtered list; every "
+                "entry point uses get_all_operations(); all 23 CLI filter options reach FilterSet under their own stem and "
+                "the filter set is installed before the engine is created; a schema is only cloned with a filter set "
+                "derived from its own. Not decided: matcher semantics (regex flags, value comparison).",
+        "design_ref": "DESIGN.md §4 C07",
+        "note": TRUSTED,
+        "technique": "who-must-call + CFG dominance over discovered enumerators, keyword-plumbing tables, ownership/aliasing rule for FilterSet",
+    },
     "C11": {
         "text": "Protocol-shape analysis: the events a function can emit on any path (normal, anticipated-fault and "
                 "explicit-raise paths; callees that emit are inlined) form an NFA that is checked for inclusion in a "
